@@ -8,6 +8,7 @@ import re
 import lib, gen, pipe
 from props import common, C09
 
+MNEMONICS = set(gen.ALL_MNEMONICS)
 RNG = re.compile(r"(\d+)\.(\d+)\.(\d+)[- ](\d+)\.(\d+)\.(\d+)/(\w+)")
 
 
@@ -49,6 +50,18 @@ def accounting(text, lex_line, parse_line, fid="0", tree=False):
             continue
         return "line %d: %s %r at raw %d..%d is in no node and no parse error is reported on its line" % (
             ln + 1, it["tag"], text[sr:er + 1], sr, er)
+    # a line that begins with an instruction mnemonic is a statement of its own: a node STARTS on it, or an error is
+    # reported on it (it is not swallowed by the statement of an earlier line)
+    starts = set()
+    for part in re.split(r" (?=N\(|E\()", parse_line):
+        if part.startswith("N(") and not part.startswith("N(progentry"):
+            m = list(RNG.finditer(part))
+            if m and m[-1].group(7) == fid:
+                starts.add(int(m[-1].group(1)))
+    for ln, l in enumerate(text.split("\n")):
+        m = re.match(r"^[ \t,]*(?:[A-Za-z_][\w]*:[ \t,]*)*([A-Za-z][\w.]*)(?=[ \t,#]|$)", l)
+        if m and m.group(1).lower() in MNEMONICS and ln not in starts and ln not in errlines and ln not in inclines:
+            return "line %d (%r) begins with the mnemonic %r but no node starts on it and no parse error is reported on it" % (ln + 1, l[:60], m.group(1))
     return None
 
 
